@@ -537,6 +537,8 @@ func init() {
 			// primary keys that are prefixes of one another, two writes per transaction
 			c01(map[string]int{"N": 2, "PRE": 3, "IDSET": 1, "WPT": 2, "OPMAX": 1}, 10),
 			step,
+			// a reader thread against a writer thread, switching at every synchronisation operation
+			{Entry: "VerifC01Reader", Params: map[string]int{"N": 1}, Covers: []string{"C01.reader.end"}, NoNative: true, Preempt: 2, Budget2: 2, Deadlock: true},
 		},
 		Thorough: []HarnessRun{
 			c01(map[string]int{"N": 3, "PRE": 2, "OPMAX": 1}, 30),
@@ -545,9 +547,10 @@ func init() {
 			c01(map[string]int{"N": 3, "PRE": 0, "OPMAX": 1, "LPM": 0, "SYMQ": 1, "L": 2}, 10),
 			c01(map[string]int{"N": 2, "PRE": 3, "IDSET": 1, "WPT": 3, "OPMAX": 2}, 10),
 			step,
+			{Entry: "VerifC01Reader", Params: map[string]int{"N": 2}, Covers: []string{"C01.reader.end"}, NoNative: true, Preempt: 2, Budget2: 2, Deadlock: true},
 		},
 		Known: []KnownProbe{{ID: "KF-lpm-tail-alias", Entry: "VerifC01LpmEntryStep"}},
-		Outside: []string{"outside: concurrent (preemptive) readers - snapshots are taken sequentially before/while/after each write transaction (a ReadTxn is a single atomic load, so sequential placement is exact for readers; instruction-level interleavings inside the writer are covered only by C02's observer); graveyard collection running between steps; more than N writes after PRE concrete pre-state objects; weak-memory effects",
+		Outside: []string{"concurrency: besides snapshots placed sequentially before/while/after each write transaction, VerifC01Reader runs a reader thread against a writer thread with switches at every synchronisation operation (preemption budget 2); no happens-before race detector (unsynchronised conflicting accesses are not reported as such), no weak-memory effects; graveyard collection running between steps; more than N writes after PRE concrete pre-state objects; weak-memory effects",
 			"queries: full iteration through every index (primary, non-unique multi-key, non-unique LPM, revision) plus point queries with concrete keys (SYMQ=1: symbolic primary query key)"},
 	})
 	c03 := func(n, l, ops, focus, diff int) HarnessRun {
@@ -564,9 +567,11 @@ func init() {
 	})
 	reg(&CheckSpec{
 		ID: "C09", PkgDir: "statedb",
-		Quick:    []HarnessRun{c03(2, 1, all, 9, 40), c03(3, 1, core, 9, 40)},
+		Quick: []HarnessRun{c03(2, 1, all, 9, 40), c03(3, 1, core, 9, 40),
+			// concurrent writers on other tables (VM threads scheduled at lock acquisitions)
+			{Entry: "VerifC10Threads", Params: map[string]int{"T": 2, "LISTMAX": 3, "KINDMAX": 0}, Covers: []string{"C10.end"}, NoNative: true, Preempt: 1, Deadlock: true}},
 		Thorough: []HarnessRun{c03(3, 1, all, 9, 60), c03(2, 2, all, 9, 40), c03(4, 1, 1|2|4|32|64, 9, 40)},
-		Outside:  []string{"outside: revision wrap-around at 2^64; concurrent writers on other tables (sequential histories only; table revisions are per-table state under the table lock, see C05)"},
+		Outside:  []string{"outside: revision wrap-around at 2^64; concurrent writers: 2 threads with symbolic table lists, preemption budget 2 at lock acquisitions (VerifC10Threads: per-table revision = number of committed inserts, revisions distinct)"},
 	})
 }
 
